@@ -13,10 +13,10 @@ from ..worker import Worker, arg, unjson
 LEVEL = "exploration"
 RULE = ("cases = 1-10 users connected in order, a subset closed again (gaps in the slot table), then 3-25 cycles with per-cycle arrivals: user u sends "
         "k complete lines (one packet or one line per packet) or a partial line completed later; special commands: 'multi' (handler calls command() three "
-        "times), 'kick<j>' (handler destructs user j mid-cycle). non-trivial = at least two users have lines waiting in one cycle and the slot table has a "
+        "times), 'kick<j>' (handler destructs user j mid-cycle), 'menu' / 'pager' (handler calls get_char(); the key presses and further commands are type-ahead in the same packet; the pager re-arms get_char() from its callback). non-trivial = at least two users have lines waiting in one cycle and the slot table has a "
         "gap; distinct = (layout, arrival pattern) hash")
 ASSUMPTIONS = ["bytes are confirmed to have reached the driver-side socket (FIONREAD) before the cycle in which they count as waiting",
-               "telnet ports only (the command buffer and turn system of docs/internals/user-command-turn.md); single-character mode is not driven",
+               "telnet ports only (the command buffer and turn system of docs/internals/user-command-turn.md); get_char() is driven with type-ahead that is already buffered when the key is asked for, not with bytes arriving while the connection is in single-character mode",
                "lines are short, so one read always takes everything that has arrived"]
 NONTRIVIAL_FLOOR = {"quick": 150, "thorough": 3000}
 
@@ -32,12 +32,19 @@ object user(int i) { return i < sizeof(users) ? users[i] : 0; }
 '''
 USER = r'''
 int id = -1;
+int pager;
 void create() { seteuid(getuid()); }
+void gc_cb(string c) {
+  "/t/c12d"->note(id, c, "gc");
+  if (pager && c[0] != 'q') get_char("gc_cb"); else pager = 0;
+}
 void logon() { id = "/t/c12d"->reg(this_object()); enable_commands(); add_action("cmd_any", "", 1); }
 int cmd_any(string arg) {
   string v = query_verb();
   "/t/c12d"->note(id, v + (arg ? " " + arg : ""), "cmd");
   if (v == "multi") { command("sub one"); command("sub two"); command("sub three"); }
+  if (v == "menu") get_char("gc_cb");                    // the next buffered input goes to the callback
+  if (v == "pager") { pager = 1; get_char("gc_cb"); }    // ... and so does every one after it, until a 'q'
   if (v[0..3] == "kick") { object o = "/t/c12d"->user(to_int(v[4..])); if (o && o != this_object()) destruct(o); }
   return 1;
 }
@@ -59,7 +66,7 @@ def cases(draw):
             u = draw(st.integers(0, n - 1))
             k = draw(st.integers(1, 6))
             mode = draw(st.sampled_from(["packet", "packet", "trickle", "partial"]))
-            special = draw(st.sampled_from(["", "", "", "", "multi", "kick"]))
+            special = draw(st.sampled_from(["", "", "", "", "multi", "kick", "menu", "pager"]))
             arrivals.append(dict(u=u, k=k, mode=mode, special=special, target=draw(st.integers(0, n - 1))))
         cycles.append(arrivals)
     return dict(n=n, closed=closed, cycles=cycles)
@@ -75,13 +82,15 @@ def evaluate_case(ctx, w, case):
     steps += [["cycle", "3"]]
     # phase 1: the wire. What each user will be handed (if it lives) is recorded per cycle.
     partial = [""] * n
+    charmode = set()       # users that were sent a get_char() conversation: nothing more is sent to them (bytes arriving while the
+                           # connection is in single-character mode are not split into lines)
     seq = 0
     arrivals_by_cycle = []
     for ci, arrivals in enumerate(case["cycles"]):
         handed = []
         for a in arrivals:
             u = a["u"]
-            if u in case["closed"]:
+            if u in case["closed"] or u in charmode:
                 continue
             lines = []
             for j in range(a["k"]):
@@ -90,6 +99,14 @@ def evaluate_case(ctx, w, case):
                     lines.append("multi m%d" % seq)
                 elif a["special"] == "kick" and j == 0:
                     lines.append("kick%d k%d" % (a["target"], seq))
+                elif a["special"] in ("menu", "pager") and j == 0 and a["mode"] != "partial" and not partial[u]:
+                    # the command that asks for a key, the type-ahead that answers it, and ordinary commands behind it: one packet
+                    lines.append("%s g%d" % (a["special"], seq))
+                    if a["special"] == "pager":
+                        lines += ["%s%d" % (ch, seq) for ch in "ABC"[:1 + seq % 3]] + ["q%d" % seq]
+                    else:
+                        lines.append("x%d" % seq)
+                    charmode.add(u)
                 else:
                     lines.append("u%dc%d x" % (u, seq))
             if a["mode"] == "partial":
@@ -100,7 +117,7 @@ def evaluate_case(ctx, w, case):
             if partial[u]:
                 lines[0] = partial[u] + lines[0]
                 partial[u] = ""
-            if a["mode"] == "packet":
+            if a["mode"] == "packet" or u in charmode:
                 steps.append(["send", "u%d" % u, "".join(l + "\r\n" for l in wire)])
             else:
                 for l in wire:
@@ -126,7 +143,7 @@ def evaluate_case(ctx, w, case):
     log = [x[1] for x in unjson(r["v"])[1]]
     by_mark = {}
     for mark, uid, line, via in log:
-        by_mark.setdefault(mark, []).append((uid, line))
+        by_mark.setdefault(mark, []).append((uid, line, via))
     # phase 2: the queue model, following the order in which the driver served the users of each cycle
     live = [u not in case["closed"] for u in range(n)]
     queue = [[] for _ in range(n)]
@@ -141,7 +158,17 @@ def evaluate_case(ctx, w, case):
         killed_now = set()
         nsubs = {}
         last_multi = None
-        for u, line in got:
+        for u, line, via in got:
+            if via == "gc":
+                # an input handed to a get_char() callback is that user's one buffered input of the cycle; the callback sees its first character
+                if u in served:
+                    return ("two-commands-in-one-cycle", "cycle %d: user %d was served a second buffered input (%r to get_char)\n%s" % (ci + 1, u, line, info)), None
+                served.add(u)
+                if not live[u] or not queue[u] or not line or not queue[u][0].startswith(line):
+                    return ("wrong-order-or-content", "cycle %d: user %d's get_char callback got %r, waiting: %r\n%s" % (ci + 1, u, line, queue[u][:1], info)), None
+                queue[u].pop(0)
+                feats.add("get_char")
+                continue
             if line.startswith("sub "):
                 nsubs[u] = nsubs.get(u, 0) + 1
                 continue
@@ -165,7 +192,7 @@ def evaluate_case(ctx, w, case):
         for u in waiting:
             if u not in served and u not in killed_now:
                 return ("starved", "cycle %d: user %d had %r waiting but executed nothing (served: %r)\n%s" % (ci + 1, u, queue[u][0], sorted(served), info)), None
-        for u, line in got:
+        for u, line, via in got:
             if line.startswith("multi") and nsubs.get(u, 0) != 3:
                 return ("command-efun-limited", "cycle %d: user %d ran 'multi' but %d of its 3 command() calls executed\n%s" % (ci + 1, u, nsubs.get(u, 0), info)), None
         if len(waiting) >= 2:
